@@ -29,6 +29,9 @@ type cexFile struct {
 	Harness string         `json:"harness"`
 	Values  []val          `json:"values"`
 	Params  map[string]int `json:"params"`
+	// assertions that are listed findings and failed earlier on the engine's path: the engine
+	// walks past them, and so does the replay (they are still printed)
+	Tolerate []string `json:"tolerate"`
 }
 
 type ReplayState struct {
@@ -114,6 +117,12 @@ func Assume(c bool) {
 
 func Assert(c bool, tag string) {
 	if !c {
+		for _, t := range st.cex.Tolerate {
+			if t == tag {
+				emit("ASSERT-KNOWN %s", tag)
+				return
+			}
+		}
 		emit("ASSERT-FAIL %s", tag)
 		st.Failed = append(st.Failed, tag)
 		panic(AssertFailure{tag})
@@ -187,12 +196,12 @@ func StubCalls(name string) int { return CountGet("stub:" + name) }
 
 // Thread-model primitives (native replay of schedules is not supported; the
 // native versions run the function on a real goroutine).
-func Go(name string, f func())     { go f() }
-func Yield()                       {}
-func Ticks(n int)                  {}
+func Go(name string, f func()) { go f() }
+func Yield()                   {}
+func Ticks(n int)              {}
 
 // TicksLeft: timer deliveries left in the engine's budget (engine only; 0 natively).
-func TicksLeft() int { return 0 }
+func TicksLeft() int               { return 0 }
 func AllowMainBlock()              {}
 func BlockForever()                { select {} }
 func LastDoneCheckSawClosed() bool { return false }
@@ -203,7 +212,7 @@ func TimeoutFired() bool { return false }
 // SleptSinceLastDoneCheck: the calling thread slept or waited for a timer after its
 // last look at a context's cancellation (engine only; false natively).
 func SleptSinceLastDoneCheck() bool { return false }
-func ThreadID() int                { return 0 }
+func ThreadID() int                 { return 0 }
 
 // RunReplay runs harness fn under the loaded counterexample and reports how it
 // ended: "ok", "assert:<tag>", "panic:<text>" or "invalid:<why>".
@@ -262,6 +271,31 @@ func JSONDocs(malformedAt int, docs ...map[string]any) []byte {
 	return b
 }
 
+// JSONDocsWithStray is JSONDocs with, in addition, a stray closing delimiter (stray is
+// "}" or "]") in front of document strayAt (len(docs): after the last one; -1: none).
+// encoding/json reports a syntax error when asked to decode there, and
+// Decoder.More() answers false in front of it - the engine's carrier does the same.
+func JSONDocsWithStray(malformedAt, strayAt int, stray string, docs ...map[string]any) []byte {
+	var b []byte
+	for i := 0; i <= len(docs); i++ {
+		if i == malformedAt || (i == len(docs) && malformedAt >= len(docs)) {
+			b = append(b, []byte("{\"operation\": \n")...)
+		}
+		if i == strayAt {
+			b = append(b, []byte(stray+"\n")...)
+		}
+		if i == len(docs) {
+			break
+		}
+		j, err := json.Marshal(docs[i])
+		if err != nil {
+			panic(InvalidReplay{"document cannot be encoded: " + err.Error()})
+		}
+		b = append(b, j...)
+		b = append(b, '\n')
+	}
+	return b
+}
 
 // YAMLDocs is the same stream written as YAML documents separated by "---" (block
 // style, so the bytes are not valid JSON).  Under the symbolic engine it is the same
